@@ -35,7 +35,7 @@ Qed.
 Definition grant (th : thread) : thread :=
   {| t_req := t_req th; t_pc := t_pc th; t_postings := t_postings th; t_unb := t_unb th;
      t_view := t_view th; t_entry := t_entry th; t_txid := t_txid th; t_granted := true;
-     t_resp := t_resp th; t_gen := t_gen th |}.
+     t_resp := t_resp th; t_gen := t_gen th; t_cancelled := t_cancelled th |}.
 
 Definition gsim (a b : option thread) : Prop :=
   match a, b with
